@@ -14,18 +14,18 @@ CLAIMED = {
 CLAIMED["C02"] = ("4/C02", "The real MessageSchema.load is executed on lines built from symbolic integers rendered to text (in-range core per command; single-fault scheme with out-of-range integers or non-numeric class texts at each numeric position; field counts 0..8; three terminators) and z3 decides on every path that accept <=> the predicate spelled in the property, that accepted lines decode to the spelled values and that rejections are ValidationError (InvalidMessageError through Gateway.listen) and nothing else. Path tree exhausted within the bounds; bounded model checking.")
 CLAIMED["C04"] = ("4/C04", "One symbolic step of the real Gateway.listen / incoming handlers from every built pre-state (symbolic registry shape, symbolic node/child/type ids, symbolic payload) is compared with a reference model written from the property statement: outcome (yielded fields or error class naming the missing id), and the complete registry after the step; plus 2-3 line histories through one listen() generator for exactly-once, in-order yields. One step from an arbitrary built state is the inductive step for histories of any length within the shape bound. Path tree exhausted; bounded model checking.")
 CLAIMED["C06"] = ("4/C06", "One symbolic step of the real receive path from every built pre-state (registry shape, reboot/sleeping flags, metric flag, stored value present/absent, version known or unknown) for every command and the listed internal types is compared with the write list of a reference model written from the statement (id response, M/I, local time via an independent days-from-civil formula over a symbolic clock stub, stored value, discover broadcast, reboot, version query rule), including that nothing is parked in either buffer. Path tree exhausted; bounded model checking.")
-CLAIMED["C10"] = ("4/C10", "Inductive step from symbolic pre-states (node unknown / known / known with child; outstanding-request markers for two nodes symbolic) with one event of 11 kinds and a symbolic write-fault bit, plus 2-3 event episode histories; writes, outcome, registry and the set of outstanding requests are compared with a model written from the statement for all five versions. Path tree exhausted; bounded model checking.")
+CLAIMED["C10"] = ("4/C10", "Inductive step from symbolic pre-states (node unknown / known / known with child; outstanding-request markers for two nodes symbolic) with one event of 13 kinds (incl. version reports from the gateway node) and a symbolic write-fault bit (subclass or base transport error), plus 2-3 event episode histories; writes, outcome, registry and the set of outstanding requests are compared with a model written from the statement for all five versions. Path tree exhausted; bounded model checking.")
 CLAIMED["C11"] = ("4/C11", "The real id-request handler is run on registries of 0..3(4) nodes whose ids are symbolic in [0,255] (so every subset shape of that size is covered by the solver) with symbolic request addressing; z3 decides freshness, range, registration-before-write, response addressing, the too-many-nodes clause, and distinctness over two requests. Path tree exhausted; bounded model checking.")
 CLAIMED["C05"] = ("4/C05", "(a1) the real get_protocol body is executed with symbolic major/minor in [0,10^6] (version parser replaced by a contract stub that is itself checked against the real AwesomeVersion on the grid) and z3 decides that the selected protocol is the newest one <= major.minor; (a2) the real parser end to end on a realised grid of 750 version texts (enumeration, stated as such); (b) histories of accepted and rejected version reports: reported version, active protocol, schema context and the type gate actually in force agree after every step; (c) internal/stream type gate per version with the type symbolic in [-2,99999] against table sizes hard-coded from the MySensors serial API. Path trees exhausted; bounded model checking.")
-CLAIMED["C03"] = ("4/C03", "The real Gateway.listen, all incoming handlers of the five protocol modules and StreamTransport.read are executed on (i) malformed lines (field counts, class texts, out-of-range integers), (ii) well-formed lines with symbolic ids, symbolic type numbers in [-2,99999] and a payload class list through the real float()/int()/version parser, from states with version known/unknown, node/child known/unknown, sleeping or not, and (iv) symbolic byte strings; on every path the outcome must be a message or a subclass of AIOMySensorsError, and after an error the same gateway must handle the next well-formed line. Path trees exhausted (the thorough raw-line hunt is non-deciding and reported as such); bounded model checking.")
-CLAIMED["C07"] = ("4/C07", "Inductive step of the real Gateway.send / outgoing set handler / wake handlers from 32 symbolic pre-states (sleeping flags, parked commands present or absent for three keys over two nodes with symbolic ids) with one event of 16 kinds, compared after the step with a last-writer-wins model (writes as multiset, registry, complete buffer contents), for all five versions, plus 2-3 event histories. Because the complete state is compared after every step, one step from an arbitrary state covers histories of any length within the shape bound. Path tree exhausted; bounded model checking.")
+CLAIMED["C03"] = ("4/C03", "The real Gateway.listen, all incoming handlers of the five protocol modules and StreamTransport.read are executed on (i) malformed lines (field counts, class texts, out-of-range integers), (ii) well-formed lines with symbolic ids, symbolic type numbers in [-2,99999] and a payload class list through the real float()/int()/version parser, from states with version known/unknown, node/child known/unknown, sleeping or not, (iv) byte strings over UTF-8 class alphabets through StreamTransport.read and the real StreamReader, and (v) a gateway on a real stream transport echoing a stored value; on every path the outcome must be a message or a subclass of AIOMySensorsError, and after an error the same gateway must handle the next well-formed line. Path trees exhausted (the thorough raw-line hunt is non-deciding and reported as such); bounded model checking.")
+CLAIMED["C07"] = ("4/C07", "Inductive step of the real Gateway.send / outgoing set handler / wake handlers from 64 symbolic pre-states (sleeping flags, parked commands present or absent for four (node, child, type) keys over two nodes with symbolic ids) with one event of 24 kinds (sends, wakes, non-wakes, version reply), compared after the step with a last-writer-wins model (writes as multiset, registry, complete buffer contents), for all five versions, plus 2-3 event histories and protocol-switch histories (parked while the version is unknown, version report, wake). Because the complete state is compared after every step, one step from an arbitrary state covers histories of any length within the shape bound. Path tree exhausted; bounded model checking.")
 CLAIMED["C08"] = ("4/C08", "The real flush loop runs over a transport stub whose every write attempt has its own symbolic fault bit (so the solver covers all subsets and positions of failing writes), across 2-3 wakes of two nodes with up to four parked commands; after every wake each command must be parked xor written exactly once, a faulted wake must raise a transport error out of listen, and fault-free wakes must release the rest. Path tree exhausted; bounded model checking.")
 CLAIMED["C09"] = ("4/C09", "The real listener (flush) and 1-3 real send coroutines run under a cooperative scheduler in which the task resumed at each transport-write suspension point is a symbolic input; the path tree therefore enumerates every feasible interleaving (asyncio has no other preemption points). At quiescence z3-decided assertions check last-sent == last-written per key, no unsent value written, no value written twice. Path tree exhausted; bounded model checking over schedules.")
 CLAIMED["C12"] = ("4/C12", "The real Gateway.send and outgoing handlers are executed for every command with symbolic node/child/ack/type/payload, symbolic buffering flag and destination unknown/awake/sleeping; each path must end in exactly one of: the exact encoded line written, held and written at the destination's next wake (the wake is then fed to listen), or a library error; non-message objects must be rejected as InvalidMessageError. Path tree exhausted; bounded model checking.")
 CLAIMED["C13"] = ("4/C13", "Registries reached through symbolic histories of received lines on a real gateway, and directly constructed registries with symbolic field values (types in [-2^40,2^40], battery in [0,100], symbolic strings), are saved by the real Persistence.save and loaded by the real Persistence.load into an empty registry over an in-memory file system; values stay symbolic through a structure-preserving json fake, so schema-level accept/reject (e.g. the battery range) is decided by z3 for all values; every path's witness is re-run through the real json on real JSON text; legacy layout == native layout; awkward strings through the real json. Path tree exhausted; bounded model checking.")
 CLAIMED["C14"] = ("4/C14", "The real Persistence.load runs on documents in which one JSON value at each of 21 nesting positions (native and legacy layout) is replaced by null / true / a symbolic integer / a symbolic or class-list string / [] / {} / [1] / {'a':1}, a field is dropped or an unknown field added, on every prefix of three valid files (cut position symbolic), on undecodable bytes, missing file, empty file and injected OSError; every path must end in success or PersistenceReadError; missing file => created with the current registry; empty => empty registry. Path tree exhausted; bounded model checking.")
 CLAIMED["C15"] = ("4/C15", "The real Persistence.save runs on an in-memory file system with crash semantics; the crash index over the operations save actually issues and the surviving prefix length of unflushed data are symbolic; the real Persistence.load then runs on every post-crash disk and must yield the old or the new registry, for all 16 ordered pairs of a 4-registry family. Path tree exhausted. The pinned tree violates the property at one call site (truncate in place): recorded as three known findings keyed by crash position and outcome; any other post-crash outcome is still a violation.")
-CLAIMED["C16"] = ("4/C16", "The real Gateway.__aenter__/__aexit__, Persistence.start/stop/save_on_schedule and the built-in transports' connect/disconnect run on a real asyncio event loop in virtual time over an in-memory file system whose every operation is a suspension point; the exit moment (0..12 loop turns), body-raises, connect-fault and disconnect-fault bits and the transport kind are inputs explored exhaustively; assertions: only the body/library exception propagates (never CancelledError), transport down, file == registry at exit, no task left, and >= 1 + floor(D/900) saves after D virtual seconds.")
+CLAIMED["C16"] = ("4/C16", "The real Gateway.__aenter__/__aexit__, Persistence.start/stop/save_on_schedule and the built-in transports' connect/disconnect run on a real asyncio event loop in virtual time over an in-memory file system whose every operation is a suspension point; the exit moment (0..12 loop turns), body-raises, connect-fault (error or cancellation) and disconnect-fault bits, the transport kind, suspending or non-suspending connect, and the speed of every file handle are inputs explored exhaustively; assertions: only the body/library exception propagates (never CancelledError), transport down, file == registry at exit, no task left, (checked the moment the context ends), and >= 1 + floor(D/900) saves after D virtual seconds in a first or second session of the same gateway.")
 CLAIMED["C17"] = ("4/C17", "The real StreamTransport/TCPTransport/SerialTransport run over a real asyncio.StreamReader on a real event loop with a feeder task: every byte stream over an 8-byte alphabet up to length 3(4), every cut into 2(3) chunks, with and without EOF, is compared with the reference (lines of the stream in order, decoded; errors as TransportReadError); writes with fault bits on write/drain/close; connect fault; use before connect. The grid is enumerated by the solver (realised dimension, stated as such).")
 CLAIMED["C18"] = ("4/C18", "The real topic<->line mapping, subscription list and read queue are executed with symbolic node/child/ack/type and symbolic payload strings (';' and '/' included) for class-list prefixes: z3 decides the published topic/QoS/payload, subscription coverage under MQTT wildcard semantics, and that the echo under the in-prefix decodes (through the real MessageSchema) to the same message; the real MQTTClient runs on a real event loop against a fake broker client for all histories of <= 3 events in {message, undecodable payload, broker error}, with publish/subscribe/connect faults and connect->disconnect at every moment. Path trees exhausted; bounded model checking.")
 CLAIMED["C19"] = ("4/C19", "Two real gateways under an older and a newer protocol version are built into the same symbolic pre-state and fed the same symbolic event (received line of any command with the type ranging over the older version's table, or a send call); outcome, error attributes, writes, registry and both buffers must be equal, with exactly the stated exemptions. Implementation against implementation, one inductive step from equal states; adjacent version pairs in the quick tier, all 10 ordered pairs in the thorough tier. Path trees exhausted; bounded model checking.")
